@@ -2,6 +2,7 @@ package stubx16
 
 import (
 	"context"
+	"errors"
 	"fmt"
 	"net"
 	"os"
@@ -54,6 +55,11 @@ type Script struct {
 	// plugin); with a stored registration timeout shorter than that, Start gives up while the
 	// handler is still running, and the handler's result arrives during whatever comes next.
 	CfgDelayMs int `json:"cfg_delay_ms,omitempty"`
+	// CfgFail: the plugin's OWN Configure handler rejects the configuration in this session
+	// (healthy, raw): "error" = it returns an error, "badmask" = it subscribes to an event it
+	// has no handler for. The adaptation drops such a plugin; the raw runtime peer keeps the
+	// connection open, or closes it when CloseAfter is set.
+	CfgFail string `json:"cfg_fail,omitempty"`
 	// Hook: one stub API call the plugin makes from INSIDE a handler of this session, the first
 	// time that handler runs (healthy and raw sessions).
 	Hook *HookCall `json:"hook,omitempty"`
@@ -254,6 +260,15 @@ func genScript(t *rapid.T, h handshake, est *int64) *Script {
 		}
 		s.CfgDelayMs = rapid.SampledFrom(delays).Draw(t, "cfg_delay_ms")
 	}
+	if s.Kind == "healthy" || s.Kind == "raw" {
+		s.CfgFail = rapid.SampledFrom([]string{"", "", "", "", "", "", "error", "badmask"}).Draw(t, "cfg_fail")
+		if s.CfgFail != "" && s.Kind == "raw" {
+			s.CloseAfter = rapid.Bool().Draw(t, "close_after")
+		}
+		if s.CfgFail != "" && !ev.Known(knownD9) {
+			s.Fast = rapid.IntRange(0, 2).Draw(t, "fast") == 0
+		}
+	}
 	if (s.Kind == "healthy" && rapid.IntRange(0, 2).Draw(t, "hooked") == 1) || (s.Kind == "raw" && rapid.IntRange(0, 2).Draw(t, "hooked") >= 1) {
 		calls := []string{"stop", "stop", "isstarted", "timeouts"}
 		if s.Kind == "raw" {
@@ -310,7 +325,7 @@ func genC16(t *rapid.T) C16Case {
 	est := stub.DefaultRegistrationTimeout.Milliseconds()
 	up := false
 	staysUp := func(s *Script) bool {
-		return (s.Kind == "healthy" || s.Kind == "raw") && (s.Hook == nil || s.Hook.Call != "stop")
+		return (s.Kind == "healthy" || s.Kind == "raw") && s.CfgFail == "" && (s.Hook == nil || s.Hook.Call != "stop")
 	}
 	first := genScript(t, h, &est)
 	up = staysUp(first)
@@ -385,6 +400,7 @@ type exec struct {
 	mu       sync.Mutex
 	pending  *Script
 	cfgDelay time.Duration // what the plugin's Configure handler sleeps, set by the Start under way
+	cfgFail  string        // how the plugin's Configure handler fails in the session under way
 	hook     *hookState    // in-handler call of the session under way
 	links    []*link
 	refusers []*refuser
@@ -428,19 +444,23 @@ func newExec(c C16Case) (*exec, error) {
 		x.mu.Lock()
 		l := x.last
 		d := x.cfgDelay
+		fail := x.cfgFail
 		x.mu.Unlock()
-		if d > 0 {
-			x.cfgs.Add(1) // entered; counted once, before the slow part
-			x.runHook("configure")
-			time.Sleep(d)
-			return 0, nil
-		}
-		if l != nil {
+		if d == 0 && l != nil {
 			x.r2sAtCfg.Store(l.bytes[r2s].Load())
 			x.s2rAtCfg.Store(l.bytes[s2r].Load())
 		}
-		x.cfgs.Add(1)
+		x.cfgs.Add(1) // entered; counted once, before the slow part
 		x.runHook("configure")
+		if d > 0 {
+			time.Sleep(d)
+		}
+		switch fail {
+		case "error":
+			return 0, errors.New("verif: the plugin rejects this configuration")
+		case "badmask":
+			return api.EventMask(1 << 20), nil // no handler exists for this event
+		}
 		return 0, nil
 	}
 	x.pl.OnSynchronize = func(context.Context, []*api.PodSandbox, []*api.Container) ([]*api.ContainerUpdate, error) {
@@ -576,7 +596,7 @@ func (x *exec) dial(string) (net.Conn, error) {
 				mode = rawMode{accept: true}
 			case "raw":
 				mode = rawMode{accept: true, configure: true, regMs: sc.RegMs, reqMs: sc.ReqMs, doSync: sc.DoSync,
-					updSilent: sc.Hook != nil && sc.Hook.Call == "update-unanswered"}
+					updSilent: sc.Hook != nil && sc.Hook.Call == "update-unanswered", closeOnCfgErr: sc.CloseAfter}
 			}
 			if r, err = newRefuser(d, mode); err == nil {
 				peer = r
@@ -774,6 +794,11 @@ func (x *exec) doStart(sc Script) *failure {
 	x.mu.Lock()
 	x.pending = &sc
 	x.cfgDelay = time.Duration(sc.CfgDelayMs) * time.Millisecond
+	x.cfgFail = ""
+	rejects := (sc.Kind == "healthy" || sc.Kind == "raw") && (sc.CfgFail == "error" || sc.CfgFail == "badmask")
+	if rejects {
+		x.cfgFail = sc.CfgFail
+	}
 	x.hook = nil
 	if h := validHook(sc); h != nil && !wasUp {
 		x.hook = &hookState{spec: *h, done: make(chan struct{})}
@@ -802,6 +827,9 @@ func (x *exec) doStart(sc Script) *failure {
 		if sc.HoldMs > 0 {
 			desc += fmt.Sprintf(" hold=%dms", sc.HoldMs)
 		}
+	}
+	if rejects {
+		desc += " (plugin's Configure handler: " + sc.CfgFail + ")"
 	}
 	if sc.Sync && sc.Kind != "unreachable" {
 		desc += " over net.Pipe"
@@ -850,6 +878,9 @@ func (x *exec) doStart(sc Script) *failure {
 			return hard("Start (%s) succeeded but dialled %d new connections (expected exactly one fresh connection)", desc, dialed)
 		}
 		lk := x.lastLink()
+		if rejects {
+			return hard("Start (%s) returned nil although the plugin's own Configure handler rejected the configuration", desc)
+		}
 		switch sc.Kind {
 		case "unreachable", "refused", "regdrop", "silent", "noconfigure":
 			return hard("Start returned nil although the runtime end was %s", sc.Kind)
@@ -905,6 +936,21 @@ func (x *exec) doStart(sc Script) *failure {
 	}
 	switch sc.Kind {
 	case "healthy", "raw":
+		if rejects {
+			// the expected way for this Start to fail; what follows is judged as after any failed
+			// start: Wait returns, the stub closes the connection, a restart dials a fresh one
+			x.classes["start:configure-rejected:"+sc.CfgFail] = true
+			if sc.Kind == "raw" {
+				if sc.CloseAfter {
+					x.classes["configure-rejected:runtime-closes"] = true
+				} else {
+					x.classes["configure-rejected:runtime-keeps-connection"] = true
+				}
+			} else {
+				x.classes["configure-rejected:adaptation-drops"] = true
+			}
+			break
+		}
 		if hk != nil && hk.spec.In == "configure" && blockingCall(hk.spec.Call) {
 			// Start holds the stub lock for the whole handshake: a call that needs that lock (or
 			// an answer that never comes) made from inside Configure keeps the handler from
